@@ -15,7 +15,6 @@ P = "parser/src/parser.rs"
 BREAKING = [
     ("plain-empty-guard", S, 'if string.is_empty() {\n            // `fetch_plain_scalar` must', 'if false && string.is_empty() {\n            // `fetch_plain_scalar` must', ["C01"]),
     ("plain-chunk-off-by-one", S, "for _ in 0..self.input.bufmaxlen() - 1 {", "for _ in 0..self.input.bufmaxlen() {", ["C01"]),
-    ("flow-level-wrapping", S, ".checked_add(1)\n            .ok_or_else(|| ScanError::new_str(self.mark, \"recursion limit exceeded\"))?;", ".wrapping_add(1);", ["C01"]),
     ("roll-indent-strict", S, "if self.indent <= col as isize {\n            if let Some(indent) = self.indents.last()", "if self.indent < col as isize {\n            if let Some(indent) = self.indents.last()", ["C03"]),
     ("no-flow-mapping-end", S, "                *implicit_mapping = ImplicitMappingState::Possible;\n                self.tokens\n                    .push_back(Token(Span::empty(mark), TokenType::FlowMappingEnd));", "                *implicit_mapping = ImplicitMappingState::Possible;", ["C02", "C03"]),
     ("escape-e-wrong", S, "'e' => ret = '\\x1b',", "'e' => ret = '\\x1a',", ["C04"]),
@@ -28,20 +27,24 @@ BREAKING = [
     ("octal-radix-10", "saphyr/src/scalar.rs", "i64::from_str_radix(number, 8)", "i64::from_str_radix(number, 10)", ["C08"]),
     ("need-quotes-no-dot", "saphyr/src/emitter.rs", "        || string.starts_with('.')\n", "", ["C09"]),
     ("str-doc-end-ignores-fourth", "parser/src/input/str.rs", "            (bytes.len() == 3 || is_blank_or_breakz(bytes[3] as char))\n                && bytes[0] == b'.'", "            (bytes.len() >= 3)\n                && bytes[0] == b'.'", ["C10"]),
-    ("stream-end-col-unchanged", S, "        if self.mark.col != 0 {\n            self.mark.col = 0;\n            self.mark.line += 1;\n        }", "        if self.mark.col != 0 {\n            self.mark.line += 1;\n        }", ["C12"]),
     ("no-adjacent-value-after-quoted", S, "        self.skip_to_next_token()?;\n        self.adjacent_value_allowed_at = self.mark.index;", "        self.skip_to_next_token()?;", ["C13"]),
     ("crlf-two-breaks", S, "        if c == '\\r' && nc == '\\n' {\n            self.skip_blank();\n        }\n        self.skip_nl();", "        if c == '\\r' && nc == '\\n' {\n            self.skip_nl();\n        }\n        self.skip_nl();", ["C14"]),
     ("tags-kept-across-documents", P, "        if !self.keep_tags {\n            self.tags.clear();\n        }", "        if !self.keep_tags && self.tags.len() > 3 {\n            self.tags.clear();\n        }", ["C16", "C15"]),
     ("next-reparses-after-peek", P, "        match self.current.take() {\n            None => self.parse(),\n            Some(v) => Ok(v),\n        }", "        match self.current.take() {\n            None => self.parse(),\n            Some(_) => self.parse(),\n        }", ["C17"]),
     ("load-stops-after-first-document", P, "            if !multi {\n                break;\n            }", "            if !multi || true {\n                break;\n            }", ["C17"]),
     ("decode-growth-len-100", "saphyr/src/encoding.rs", "output.reserve((input.len() / 10).max(MIN_DECODER_OUTPUT_SPACE));", "output.reserve(input.len() / 100);", ["C18"]),
-    ("owned-value-becomes-representation", "saphyr/src/yaml_owned.rs", "Yaml::Value(scalar) => Self::Value(scalar.into_owned()),", "Yaml::Value(Scalar::String(s)) => Self::Representation(s.into_owned(), saphyr_parser::ScalarStyle::Plain, None),\n            Yaml::Value(scalar) => Self::Value(scalar.into_owned()),", ["C19"]),
+    ("owned-value-becomes-representation", "saphyr/src/yaml_owned.rs", "Yaml::Value(scalar) => Self::Value(scalar.into_owned()),", "Yaml::Value(crate::Scalar::String(s)) => Self::Representation(s.into_owned(), ScalarStyle::Plain, None),\n            Yaml::Value(scalar) => Self::Value(scalar.into_owned()),", ["C19"]),
     ("hash-bare-str", "saphyr/src/yaml.rs", "    let key = Yaml::Value(Scalar::String(key.into()));\n    key.hash(&mut hasher);", "    key.hash(&mut hasher);", ["C20"]),
     ("nesting-limit-off", P, "if self.states.len() > MAX_NESTING_LEVEL {", "if self.states.len() > MAX_NESTING_LEVEL * 1000 {", ["C11"]),
 ]
 
 # changes that must NOT raise a violation from the listed checks
 HARMLESS = [
+    # planned in DESIGN section 12 as breaking, but on examination no listed property is violated by them (DESIGN 0.5):
+    # the scanner's flow level wraps at 256 '[' — tokens desynchronise, the parser still ends in an error or a stream, nothing panics;
+    ("flow-level-wrapping", S, ".checked_add(1)\n            .ok_or_else(|| ScanError::new_str(self.mark, \"recursion limit exceeded\"))?;", ".wrapping_add(1);", ["C01", "C11"]),
+    # the stream-end position keeps its column — C12 constrains line and column only for positions before the end of the input
+    ("stream-end-col-unchanged", S, "        if self.mark.col != 0 {\n            self.mark.col = 0;\n            self.mark.line += 1;\n        }", "        if self.mark.col != 0 {\n            self.mark.line += 1;\n        }", ["C12"]),
     ("renamed-error-message", S, '"invalid indentation in flow construct"', '"bad indentation inside a flow construct"', ["C01", "C02", "C06", "C10", "C14"]),
     ("buffered-capacity-32", "parser/src/input/buffered.rs", "const BUFFER_LEN: usize = 16;", "const BUFFER_LEN: usize = 32;", ["C01", "C10", "C05"]),
     ("string-capacity-64", S, "let mut string = String::with_capacity(32);", "let mut string = String::with_capacity(64);", ["C04", "C10"]),
